@@ -1,6 +1,6 @@
 """C16 - Purging removes exactly the unreachable items."""
 from ..cfgq import (Scope, iter_chain, strip, closure_id_of, closure_env, returned_nodes, elem_prov, value_prov,
-                    UnknownTransfer, dominating_conditions)
+                    UnknownTransfer, dominating_conditions, beta, fn_item_of, inline_helper)
 from ..exprs import leaf_name, short_callee, show
 from ..facts import AnalysisError
 from ..mir import callee_name, callee_id, pl_local, pl_proj
@@ -38,6 +38,19 @@ def model_field_of_place(p, body):
     return "".join(pr)[1:]
 
 
+def branch_conditions(body, b):
+    """dominating conditions of block b other than loop exits (`while let Some(..) = it.next()` falling through) and `?`"""
+    from ..exprs import ExprBuilder
+    eb = ExprBuilder(body)
+    out = []
+    for (d, n, tk) in dominating_conditions(body, b, eb):
+        n = strip(n)
+        if n[0] == "discr" and ("next(" in show(n) or "branch(" in show(n)):
+            continue
+        out.append((d, n, tk))
+    return out
+
+
 def stage_events(prog, fn, arg_name="model"):
     """ordered events of one purge function: ('write', target, info) and the calls to other purge functions"""
     body = fn.body
@@ -52,7 +65,7 @@ def stage_events(prog, fn, arg_name="model"):
                 continue
             tgt = model_field_of_place(s["p"], body)
             if tgt is not None and not isinstance(s["p"], int):
-                if dominating_conditions(body, b):
+                if branch_conditions(body, b):
                     raise AnalysisError("purge write to model.%s under a branch in %s: not analysable as a stage sequence" % (tgt, fn.path))
                 events.append((order[b], i, "write", tgt, sc.rvalue(s["rv"]), fn.loc(s.get("ln"))))
         t = body.blocks[b]["term"]
@@ -65,9 +78,26 @@ def stage_events(prog, fn, arg_name="model"):
                 if ln_ and ln_.startswith(arg_name + "."):
                     events.append((order[b], 10 ** 6, "retain", ln_[len(arg_name) + 1:], strip(sc.operand(t["args"][1])), fn.loc(t.get("ln"))))
             elif cid in prog.fns and prog.fns[cid].raw.get("inputs") == ["&mut types::model::Model"]:
-                if dominating_conditions(body, b):
+                if branch_conditions(body, b):
                     raise AnalysisError("purge stage call under a branch in %s" % fn.path)
                 events.append((order[b], 10 ** 6, "call", cid, None, fn.loc(t.get("ln"))))
+            elif cid in prog.fns and prog.fns[cid].path.rsplit("::", 1)[0] == fn.path.rsplit("::", 1)[0] and t["args"] and \
+                    (leaf_name(strip(sc.operand(t["args"][0]))) or "").startswith(arg_name + ".") and (prog.fns[cid].raw.get("inputs") or [""])[0].startswith("&mut std::vec::Vec"):
+                # a helper of this module that filters the vector it is given in place (`retain_used(&mut model.x, &used, |v| v.id)`): instantiated here
+                h = prog.fns[cid]
+                hsc = Scope(prog, h, argmap={i2 + 1: sc.operand(a) for i2, a in enumerate(t["args"])})
+                rets = [(b2, t2) for b2, t2 in h.body.calls() if short_callee(callee_name(t2) or "") == "retain" and "vec::Vec" in (callee_name(t2) or "")]
+                writes_other = [1 for b2, i2, s2 in h.body.statements() if s2["s"] == "assign" and not isinstance(s2["p"], int) and pl_local(s2["p"]) == 1 and "*" in pl_proj(s2["p"])]
+                if len(rets) != 1 or writes_other or h.body.loops() or leaf_name(strip(hsc.operand(rets[0][1]["args"][0]))) != leaf_name(strip(sc.operand(t["args"][0]))):
+                    raise AnalysisError("purge helper %s is not a single in-place `retain` of its first argument: not read by this rule" % h.path.split("::")[-1])
+                if branch_conditions(body, b) or branch_conditions(h.body, rets[0][0]):
+                    raise AnalysisError("purge helper call under a branch in %s" % fn.path)
+                kids = [ch for (b3, t3, ch) in hsc.children() if b3 == rets[0][0]]
+                if len(kids) != 1 or len(returned_nodes(kids[0].body)) != 1:
+                    raise AnalysisError("purge helper %s: retain predicate not readable" % h.path.split("::")[-1])
+                pred = beta(prog, kids[0]._rw(returned_nodes(kids[0].body)[0][1]))
+                ln_ = leaf_name(strip(sc.operand(t["args"][0])))
+                events.append((order[b], 10 ** 6, "pred", ln_[len(arg_name) + 1:], strip(pred), fn.loc(t.get("ln"))))
             elif cid in prog.fns and (prog.fns[cid].raw.get("inputs") or [""])[0] == "&mut types::model::Model" and prog.fns[cid].path.startswith("bemodel::purge::"):
                 raise AnalysisError("purge stage %s takes %s: stages that receive precomputed reference sets (or other extra arguments) are not read by this rule; "
                                     "which set protects which collection, and when it was collected, cannot be decided" % (prog.fns[cid].path.split("::")[-1], prog.fns[cid].raw.get("inputs")))
@@ -94,6 +124,8 @@ def flatten(prog, fn, depth=0):
 
 def analyse_filter(prog, fn, kind, target, rhs):
     """returns dict(source, adaptors, pred) for a write `model.target = <chain>` or retain(closure)"""
+    if kind == "pred":
+        return {"source": "model." + target, "adaptors": ["retain"], "pred": strip(rhs), "why": None}
     if kind == "retain":
         closure = rhs
         source = "model." + target
@@ -110,6 +142,15 @@ def analyse_filter(prog, fn, kind, target, rhs):
         closure = strip(filters[0])
         chain_src_elem = ("elem", source or "?", ())
     cid = closure_id_of(closure)
+    if (not cid or cid not in prog.fns) and fn_item_of(strip(closure)):
+        # a named predicate function: `retain(has_length)`
+        ids = prog.callee_index().get(fn_item_of(strip(closure)), ()) or {f.id for f in prog._by_path.get(fn_item_of(strip(closure)), [])}
+        if len(ids) == 1:
+            pf = prog.fns[next(iter(ids))]
+            rns = returned_nodes(pf.body)
+            if len(rns) == 1 and pf.body.argc == 1:
+                psc = Scope(prog, pf, argmap={1: chain_src_elem})
+                return {"source": source, "adaptors": adaptors, "pred": strip(psc._rw(rns[0][1])), "why": None}
     if not cid or cid not in prog.fns:
         return {"source": source, "adaptors": adaptors, "pred": None, "why": "filter predicate is not a closure"}
     cfn = prog.fns[cid]
@@ -121,10 +162,63 @@ def analyse_filter(prog, fn, kind, target, rhs):
     return {"source": source, "adaptors": adaptors, "pred": pred, "why": None}
 
 
+def set_prov(prog, fn, node, depth=0):
+    """element provenance of a used-id set: an iterator chain collected in place, or a set local filled with insert/extend in loops"""
+    n = strip(node)
+    if n[0] == "call":
+        inl = inline_helper(prog, n)
+        if inl is not None and depth < 3:
+            return set_prov(prog, fn, inl, depth + 1)
+        ids = prog.callee_index().get(n[1], ())
+        if len(ids) == 1 and depth < 3 and prog.fns[next(iter(ids))].path.rsplit("::", 1)[0] == fn.path.rsplit("::", 1)[0]:
+            # a helper of the module that builds and returns the set: its returned local, with the parameters bound
+            h = prog.fns[next(iter(ids))]
+            hsc = Scope(prog, h, argmap={i + 1: a for i, a in enumerate(n[2])})
+            rns = returned_nodes(h.body)
+            if len(rns) == 1:
+                return local_set_prov(prog, h, hsc, strip(hsc._rw(rns[0][1])), depth + 1)
+    if n[0] == "var":
+        return local_set_prov(prog, fn, Scope(prog, fn), n, depth)
+    return elem_prov(prog, n)
+
+
+def local_set_prov(prog, fn, sc, n, depth):
+    if n[0] != "var":
+        return set_prov(prog, fn, n, depth + 1) if n[0] == "call" else elem_prov(prog, n)
+    l = n[1]
+    out = set()
+    body = sc.body
+    for d in body.defs().get(l, []):
+        v = strip(sc.rvalue(d[3]["rv"])) if d[0] == "st" else strip(sc._rw(sc.eb.call_node(d[2], d[1])))
+        if v[0] == "call" and short_callee(v[1]) in ("new", "default", "with_capacity") and not v[2]:
+            continue
+        if v[0] == "call" and short_callee(v[1]) in ("new", "default", "with_capacity"):
+            continue
+        out |= elem_prov(prog, v)
+    for b, t in body.calls():
+        nm = short_callee(callee_name(t) or "")
+        if nm in ("insert", "push", "extend") and t["args"]:
+            recv = strip(sc.operand(t["args"][0]))
+            if recv[0] == "var" and recv[1] == l:
+                a = strip(beta(prog, sc.operand(t["args"][-1])))
+                if nm == "extend":
+                    if a[0] == "call":
+                        inl = inline_helper(prog, a)
+                        a = strip(inl) if inl is not None else a
+                    try:
+                        out |= {x[:-2] if x.endswith("[]") and False else x for x in elem_prov(prog, a)}
+                    except UnknownTransfer:
+                        out |= value_prov(prog, a)
+                else:
+                    out |= value_prov(prog, a)
+    # the values inserted are ids (Option payloads and array elements are transparent): drop the element marker of one-element options
+    return {x[:-2] if x.endswith("@Some.0[]") else x for x in out}
+
+
 def run_on(ctx, root, rule_prefix="c16", arg="model"):
     prog = ctx.prog
     events = flatten(prog, root)
-    stages = [e for e in events if e[1] in ("write", "retain")]
+    stages = [e for e in events if e[1] in ("write", "retain", "pred")]
     purge_targets = {e[2] for e in stages}
     # spec: target -> set of referrer value names
     want = {}
@@ -170,7 +264,7 @@ def run_on(ctx, root, rule_prefix="c16", arg="model"):
             continue
         tested = leaf_name(strip(pred[2][1]))
         try:
-            used = elem_prov(prog, pred[2][0])
+            used = set_prov(prog, fn, pred[2][0])
         except UnknownTransfer as e:
             raise AnalysisError("C16: %s in stage %s (%s)" % (e, target, loc))
         exp = want.get(target)
@@ -244,7 +338,7 @@ def run(ctx):
             if s["s"] == "assign" and s["rv"]["r"] == "ref" and s["rv"]["mut"]:
                 f = model_field_of_place(s["rv"]["p"], b)
                 if f is not None and fn.raw.get("inputs") == ["&mut types::model::Model"]:
-                    if only_retain_receiver(b, s["p"]):
+                    if only_retain_receiver(b, s["p"], 0, prog):
                         continue     # `model.x.retain(..)`: a purge stage, its predicate is examined by c16.used
                     write_other.append((fn, f, s.get("ln")))
     for (fn, f, ln) in write_other:
@@ -253,11 +347,12 @@ def run(ctx):
     ctx.ok("c16.writes", "c16.writes|scan", "no other mutable access to the model in %d purge bodies" % sum(1 for f in seen if prog.fns[f].path.startswith("bemodel::purge::")), root.loc())
 
 
-def only_retain_receiver(body, place, depth=0):
-    """is the &mut reference stored in `place` used only as the receiver of Vec::retain (possibly through reborrows)?"""
+def only_retain_receiver(body, place, depth=0, prog=None):
+    """is the &mut reference stored in `place` used only to filter a vector in place - as the receiver of Vec::retain or as the vector handed to
+    a retain helper of the purge module - possibly through reborrows?  Shared reborrows (reads) are harmless."""
     from ..dataflow import uses_of
-    from ..mir import pl_local, callee_name
-    if not isinstance(place, int) or depth > 3:
+    from ..mir import pl_local, callee_name, callee_id
+    if not isinstance(place, int) or depth > 4:
         return False
     uses = uses_of(body, place)
     if not uses:
@@ -265,12 +360,17 @@ def only_retain_receiver(body, place, depth=0):
     for u in uses:
         if u[0] == "term":
             t = u[2]
-            if t["t"] == "call" and short_callee(callee_name(t) or "") == "retain" and "Vec" in (callee_name(t) or "") and t["args"] and \
-                    isinstance(t["args"][0], dict) and pl_local(t["args"][0].get("m", t["args"][0].get("c", -1))) == place:
+            first = t["t"] == "call" and t["args"] and isinstance(t["args"][0], dict) and pl_local(t["args"][0].get("m", t["args"][0].get("c", -1))) == place
+            if first and short_callee(callee_name(t) or "") == "retain" and "Vec" in (callee_name(t) or ""):
                 continue
+            if first and prog is not None and callee_id(t) in prog.fns and prog.fns[callee_id(t)].path.startswith("bemodel::purge::") and \
+                    (prog.fns[callee_id(t)].raw.get("inputs") or [""])[0].startswith("&mut std::vec::Vec"):
+                continue       # the helper's shape (a single in-place retain of its first argument) is established by stage_events
             return False
         s = u[3]
-        if s["rv"]["r"] in ("ref", "use") and isinstance(s["p"], int) and only_retain_receiver(body, s["p"], depth + 1):
+        if s["rv"]["r"] == "ref" and not s["rv"].get("mut"):
+            continue           # a shared reborrow: read only
+        if s["rv"]["r"] in ("ref", "use") and isinstance(s["p"], int) and only_retain_receiver(body, s["p"], depth + 1, prog):
             continue
         return False
     return True
